@@ -10,7 +10,7 @@ PROP=$1; TARGET=$2; RUNS=$3; MAXLEN=$4
 ROOT=${VERIF_ROOT:-/verif}
 FZ="${VERIF_FUZZ_DIR:-$ROOT/fuzz}"
 SEED=$(( (${VERIF_SEED:-20260927} % 2147483000) + 1 ))
-JOBS=${VERIF_FUZZ_JOBS:-8}
+JOBS=${VERIF_FUZZ_JOBS:-16}
 export VERIF_ROOT="$ROOT"
 LOG=$(mktemp)
 if ! (cd "$FZ" && cargo +nightly fuzz build --fuzz-dir . "$TARGET" >"$LOG" 2>&1); then
@@ -20,17 +20,28 @@ CORPUS=$(mktemp -d)
 mkdir -p "$ROOT/replays"
 PREFIX="$ROOT/replays/fuzz-$TARGET-"
 before=$(ls "$PREFIX"* 2>/dev/null | sort)
-# -fork runs JOBS child processes and merges their corpora; each child gets runs/JOBS executions
-(cd "$FZ" && cargo +nightly fuzz run --fuzz-dir . "$TARGET" "$CORPUS" "seeds/$TARGET" -- \
-   -runs="$RUNS" -seed="$SEED" -max_len="$MAXLEN" -len_control=0 -timeout=60 -rss_limit_mb=4096 \
-   -artifact_prefix="$PREFIX" -print_final_stats=1) >"$LOG" 2>&1
-status=$?
+BINARY="$FZ/target/x86_64-unknown-linux-gnu/release/$TARGET"
+if [ ! -x "$BINARY" ]; then echo "BUILD-FAILED property=$PROP no binary $BINARY"; rm -rf "$LOG" "$CORPUS"; exit 2; fi
+# JOBS independent libFuzzer processes (own corpus, own seed, RUNS/JOBS executions each):
+# the campaign explores JOBS different mutation trajectories from the same starting corpus
+PER=$(( (RUNS + JOBS - 1) / JOBS ))
+pids=()
+for j in $(seq 0 $((JOBS-1))); do
+  mkdir -p "$CORPUS/$j"
+  ( cd "$FZ" && "$BINARY" "$CORPUS/$j" "seeds/$TARGET" -runs="$PER" -seed=$((SEED + j)) -max_len="$MAXLEN" -len_control=0 \
+      -timeout=60 -rss_limit_mb=4096 -artifact_prefix="$PREFIX" -print_final_stats=1 >"$LOG.$j" 2>&1 ) &
+  pids+=($!)
+done
+status=0
+for p in "${pids[@]}"; do wait "$p" || status=$?; done
+cat "$LOG".[0-9]* > "$LOG" 2>/dev/null
 after=$(ls "$PREFIX"* 2>/dev/null | sort)
 new=$(comm -13 <(echo "$before") <(echo "$after") | head -1)
-execs=$(grep -o "stat::number_of_executed_units: [0-9]*" "$LOG" | grep -o "[0-9]*$" | tail -1)
-cov=$(grep -o "cov: [0-9]*" "$LOG" | tail -1 | grep -o "[0-9]*")
-corp=$(ls "$CORPUS" | wc -l)
-echo "fuzz $TARGET: executions=${execs:-?} coverage_edges=${cov:-?} corpus=$corp exit=$status seed=$SEED"
+execs=$(grep -ho "stat::number_of_executed_units: [0-9]*" "$LOG".[0-9]* | grep -o "[0-9]*$" | paste -sd+ | bc)
+cov=$(for f in "$LOG".[0-9]*; do grep -o "cov: [0-9]*" "$f" | tail -1 | grep -o "[0-9]*"; done | sort -n | tail -1)
+corp=$(find "$CORPUS" -type f | wc -l)
+rm -f "$LOG".[0-9]*
+echo "fuzz $TARGET: jobs=$JOBS executions=${execs:-?} coverage_edges=${cov:-?} corpus=$corp exit=$status seed=$SEED"
 # merge the campaign statistics into the evidence file of the property
 EV="${VERIF_EVIDENCE_DIR:-$ROOT/evidence}/$PROP.json"
 if [ -f "$EV" ]; then
@@ -39,7 +50,7 @@ import json, sys
 ev, target, execs, cov, corp, status, seed = sys.argv[1:]
 d = json.load(open(ev))
 f = d["coverage"].setdefault("fuzz_campaigns", [])
-f.append({"target": target, "engine": "libFuzzer (cargo-fuzz)", "executions": int(execs), "coverage_edges": int(cov),
+f.append({"target": target, "engine": "libFuzzer (cargo-fuzz build, independent parallel jobs with seeds seed..seed+jobs-1)", "executions": int(execs), "coverage_edges": int(cov),
           "corpus_files": int(corp), "exit_status": int(status), "seed": int(seed)})
 d["coverage"]["evaluations"] = d["coverage"].get("evaluations", 0) + int(execs)
 json.dump(d, open(ev, "w"), indent=1)
